@@ -13,12 +13,15 @@ explored on the implementation by the correspondence check.
 namespace Delb.Gc
 
 /-- generated-table obligation: the thresholds in the source are the structural reference counts
-    listed in `Model/Gc.lean`, at every site -/
+    listed in `Model/Gc.lean`, at every comparison of each kind (however many sites the source has),
+    no other `getrefcount` comparison exists, and the callback is guarded by phase and lock -/
 theorem c04_thresholds :
-    Gen.gcWrapperBases = [4] ∧ Gen.gcDocumentIdles = [4] ∧ Gen.gcAppendedBases = [3, 3, 3] ∧
-    Gen.gcHeadBases = [3, 3] ∧ Gen.gcOtherComparisons = [] ∧
+    (Gen.gcWrapperBases ≠ [] ∧ ∀ x ∈ Gen.gcWrapperBases, x = 4) ∧
+    (Gen.gcDocumentIdles ≠ [] ∧ ∀ x ∈ Gen.gcDocumentIdles, x = 4) ∧
+    (Gen.gcAppendedBases ≠ [] ∧ ∀ x ∈ Gen.gcAppendedBases, x = 3) ∧
+    (Gen.gcHeadBases ≠ [] ∧ ∀ x ∈ Gen.gcHeadBases, x = 3) ∧ Gen.gcOtherComparisons = [] ∧
     Gen.gcGuard = "phase != 'stop' or self.locks" := by
-  exact ⟨rfl, rfl, rfl, rfl, rfl, rfl⟩
+  refine ⟨⟨by decide, by decide⟩, ⟨by decide, by decide⟩, ⟨by decide, by decide⟩, ⟨by decide, by decide⟩, rfl, rfl⟩
 
 /-- the thresholds the callback uses, derived from the table obligation `c04_thresholds` -/
 theorem c04_threshold_values :
